@@ -671,6 +671,22 @@ def evaluate(case, native):
         if acts[0]['place_idx'] != u or acts[0]['duration'] != float(case['places'][u]['duration']):
             return True, f'activity tagged {"ab"[u]!r} was reconstructed at place {acts[0]["place_idx"]} (duration {acts[0]["duration"]}), expected place {u} (places {case["places"]})'
         return False, 'the tagged activity is read back at the place its tag belongs to'
+    if kind == 'min_variation':
+        sample, g = case['sample'], case['generation']
+        post = [list(r) for r in case['window']]
+        post[g % sample] = list(case['fitness'])
+        def cv(col):
+            mean = sum(col) / len(col)
+            if mean == 0:
+                return 0.0
+            var = sum((x - mean) ** 2 for x in col) / len(col)
+            return var ** 0.5 / mean
+        cvs = [cv([post[i][j] for i in range(sample)]) for j in range(len(case['fitness']))]
+        want = g >= sample - 1 and all(c <= case['threshold'] for c in cvs)
+        if native['fired'] != want:
+            return True, (f'variation criterion answered {native["fired"]} at generation {g} (window of {sample}); the window after the update is {post}, '
+                          f'coefficients of variation {[round(c, 3) for c in cvs]}, threshold {case["threshold"]}: expected {want}')
+        return False, 'the criterion fires exactly when the window is full and every coefficient of variation is within the threshold'
     if kind == 'statistic_sum':
         for k_ in ('cost', 'distance', 'duration', 'driving', 'serving', 'waiting', 'break_time', 'commuting', 'parking'):
             want = case['a'][k_] + case['b'][k_]
